@@ -247,6 +247,11 @@ func (f *filler) fill(v reflect.Value, depth int) {
 				k.SetString(genKey(r))
 			} else {
 				f.fill(k, depth+1)
+				if t.Key() == typMT {
+					// distinct map keys must have distinct texts (else the
+					// member order of equal keys is Go's map order)
+					k.Field(0).SetInt(cbOK)
+				}
 			}
 			e := reflect.New(t.Elem()).Elem()
 			f.fill(e, depth+1)
